@@ -15,7 +15,7 @@ def main():
     d = os.path.abspath(sys.argv[1].rstrip("/"))
     tier = sys.argv[2] if len(sys.argv) > 2 else "quick"
     meta = json.load(open(os.path.join(d, "meta.json")))
-    pid = meta["property"]
+    pid = os.environ.get("SEEDTEST_PROP") or meta["property"]      # SEEDTEST_PROP: run another property's check on this seed
     wt = "/tmp/seedtest-wt-%d" % os.getpid()
     subprocess.run(["git", "-C", "/repo", "worktree", "add", "-q", "--detach", wt, "HEAD"], check=True)
     t0 = time.time()
